@@ -80,6 +80,132 @@ def parse_root(b):
     return {"gen": gen, "heads": heads, "fc": fc, "free": free, "ck": ck}
 
 
+M64 = (1 << 64) - 1
+
+
+def siphash24(data):
+    """SipHash-2-4 with a zero key (python side: only to craft well-formed root records for the malformed stream)"""
+    v0, v1, v2, v3 = 0x736f6d6570736575, 0x646f72616e646f6d, 0x6c7967656e657261, 0x7465646279746573
+
+    def rotl(x, b):
+        return ((x << b) | (x >> (64 - b))) & M64
+
+    def rnd(v0, v1, v2, v3):
+        v0 = (v0 + v1) & M64; v1 = rotl(v1, 13); v1 ^= v0; v0 = rotl(v0, 32)
+        v2 = (v2 + v3) & M64; v3 = rotl(v3, 16); v3 ^= v2
+        v0 = (v0 + v3) & M64; v3 = rotl(v3, 21); v3 ^= v0
+        v2 = (v2 + v1) & M64; v1 = rotl(v1, 17); v1 ^= v2; v2 = rotl(v2, 32)
+        return v0, v1, v2, v3
+    n = len(data)
+    for i in range(0, n - n % 8, 8):
+        m = int.from_bytes(data[i:i + 8], "little")
+        v3 ^= m
+        v0, v1, v2, v3 = rnd(*rnd(v0, v1, v2, v3))
+        v0 ^= m
+    b = int.from_bytes(data[n - n % 8:], "little") | ((n & 0xff) << 56)
+    v3 ^= b
+    v0, v1, v2, v3 = rnd(*rnd(v0, v1, v2, v3))
+    v0 ^= b
+    v2 ^= 0xff
+    for _ in range(4):
+        v0, v1, v2, v3 = rnd(v0, v1, v2, v3)
+    return v0 ^ v1 ^ v2 ^ v3
+
+
+def varint(n):
+    out = bytearray()
+    while n >= 128:
+        out.append((n & 0x7f) | 0x80)
+        n >>= 7
+    out.append(n)
+    return bytes(out)
+
+
+def ser_root(gen, heads, fc, free, ck=None):
+    inp = gen.to_bytes(8, "little")
+    for o in (heads, fc):
+        inp += b"\x00" if o is None else b"\x01" + o.to_bytes(8, "little")
+    inp += (free & M64).to_bytes(8, "little")
+    if ck is None:
+        ck = siphash24(inp)
+    zz = (free << 1) ^ (free >> 63) if free >= 0 else ((-free) << 1) - 1
+    body = varint(gen)
+    for o in (heads, fc):
+        body += b"\x00" if o is None else b"\x01" + varint(o)
+    body += varint(zz & M64) + varint(ck)
+    return body
+
+
+def gen_raw_cases(r, count):
+    """The malformed stream for `open`: random garbage, well-formed roots in every slot/generation
+    combination, and well-formed roots damaged in every way the decoder distinguishes."""
+    cases = []
+
+    def rand_root():
+        gen = r.choice([0, 1, 2, 127, 128, 300, 2 ** 32, 2 ** 63, 2 ** 64 - 2, 2 ** 64 - 1, r.below(1000)])
+        heads = r.choice([None, 12288, 12300, 2 ** 21, 2 ** 64 - 1, r.below(1 << 24)])
+        fc = r.choice([None, 0, 127, 128, 2 ** 64 - 1, r.below(1 << 24)])
+        free = r.choice([12288, 12289, 16384, 2 ** 22, 2 ** 62, 2 ** 63 - 1, -1, -(2 ** 63), 0, r.below(1 << 24)])
+        return gen, heads, fc, free
+
+    def slot(body, ln=None):
+        ln = len(body) if ln is None else ln
+        return (ln & 0xffffffff).to_bytes(4, "big") + body
+
+    def damage(body):
+        k = r.below(12)
+        b = bytearray(body)
+        if k == 0 and b:
+            i = r.below(len(b)); b[i] ^= 1 << r.below(8); return slot(bytes(b))
+        if k == 1:
+            return slot(body, len(body) + r.choice([1, 2, 50, 200]))          # trailing bytes are ignored
+        if k == 2:
+            return slot(body, max(0, len(body) - r.range(1, 3)))              # truncated
+        if k == 3:
+            return slot(body, r.choice([0, 255, 256, 65536, 2 ** 24, 2 ** 31, 2 ** 32 - 1]))
+        if k == 4:
+            return slot(bytes([0x80 | body[0]]) + b"\x00" + body[1:]) if body[0] < 0x80 else slot(body)   # non-canonical varint
+        if k == 5:
+            return slot(b"\xff" * 9 + b"\x02" + body[1:])                      # varint overflow
+        if k == 6:
+            return slot(b"\xff" * 10 + b"\x00" + body[1:])                     # varint too long
+        if k == 7:
+            i = 1 if body[0] < 0x80 else 2
+            return slot(body[:i] + b"\x02" + body[i + 1:])                     # bad option tag (when it lands on the tag)
+        if k == 8:
+            return bytes([r.below(2), 0, 0]) + slot(body)[3:]                  # first prefix byte damaged
+        if k == 9:
+            return slot(body)[:4] + bytes(r.below(256) for _ in range(len(body)))
+        return slot(body)
+    for i in range(count):
+        k = r.below(8)
+        size = r.choice([20000, 12288 + 4194304, 12288, 8192 + 30, 8192 + 3, 4096 + 40, 4100, 4096, 0, 300000]) if r.chance(1, 4) else 4206592
+        if k == 0:
+            a = bytes(r.below(256) for _ in range(r.below(80)))
+            b = bytes(r.below(256) for _ in range(r.below(80)))
+        else:
+            ra, rb = rand_root(), rand_root()
+            if k == 1:
+                rb = (ra[0],) + rb[1:]                       # equal generations
+            elif k == 2:
+                rb = ((ra[0] + 1) & M64,) + rb[1:]
+            elif k == 3:
+                ra = ((rb[0] + 1) & M64,) + ra[1:]
+            a = slot(ser_root(*ra))
+            b = slot(ser_root(*rb))
+            if k >= 4:
+                if r.chance(1, 2):
+                    a = damage(ser_root(*ra))
+                if r.chance(1, 2):
+                    b = damage(ser_root(*rb))
+                if r.chance(1, 6):
+                    a = b""
+                if r.chance(1, 6):
+                    b = b""
+        cases.append((size, a, b))
+    return cases
+
+
 def fnv(b):
     h = 0xcbf29ce484222325
     for x in b:
@@ -383,6 +509,26 @@ class Session:
         t.join()
         if len(out) != len(reqs):
             raise RuntimeError("harness died during IMG (%d of %d results)" % (len(out), len(reqs)))
+        return out
+
+    def raw(self, cases):
+        import threading
+        out = []
+
+        def reader():
+            for _ in cases:
+                l = self.p.stdout.readline()
+                if not l:
+                    return
+                out.append(l.rstrip("\n"))
+        t = threading.Thread(target=reader)
+        t.start()
+        for (size, a, b) in cases:
+            self.p.stdin.write("RAW %d %s %s\n" % (size, a.hex() or "-", b.hex() or "-"))
+        self.p.stdin.flush()
+        t.join()
+        if len(out) != len(cases):
+            raise RuntimeError("harness died during RAW")
         return out
 
     def drop(self, wid):
@@ -721,6 +867,7 @@ def _run(ctx, binp, tmp):
     violations = []
     stale = []
     open_cases = []        # (size, slotA bytes, slotB bytes, impl summary)
+    raw_cases = []
     dist = {"crash_points": 0, "images": 0, "open_err": 0, "recovered_last_completed": 0, "recovered_in_progress": 0,
             "torn_root_images": 0, "continuations": 0, "continuation_subimages": 0, "exhaustive_points": 0}
     distinct = set()
@@ -792,10 +939,21 @@ def _run(ctx, binp, tmp):
                     dist["continuations"] += 1
                     dist["continuation_subimages"] += res["cont"].count(":") // 2
                     why, info = cont_oracle(res, ci)
+                    if why is None and info and ci is not None and tr.commits[ci]["root"]:
+                        # what the recovered writer continued from: frontier, generation, slot
+                        want = tr.commits[ci]["root"]
+                        if info.get("append_off") is not None and info["append_off"] != want["free"]:
+                            why = "recovered write frontier %s differs from the frontier %s of recovered commit #%d" % (
+                                info["append_off"], want["free"], ci + 1)
+                        elif info.get("root") and info["root"]["gen"] != want["gen"] + 1:
+                            why = "recovered generation %s differs from generation %s of recovered commit #%d" % (
+                                info["root"]["gen"] - 1, want["gen"], ci + 1)
+                        elif info.get("slot") is not None and info["slot"] == tr.commits[ci]["slot"]:
+                            why = "the commit after recovery overwrote the slot (%d) holding recovered commit #%d" % (info["slot"], ci + 1)
                 if why:
                     violations.append((why, wi, kind, ops, n, spec, res["raw"][:600]))
                 # model's open on the same image (slots only)
-                if len(open_cases) < (4000 if thorough else 700) and (torn_root or r.chance(1, 4)):
+                if len(open_cases) < (4000 if thorough else 360) and (torn_root or r.chance(1, 4)):
                     a, size = image_bytes(tr, n, dec, SLOTS[0], 300)
                     b, _ = image_bytes(tr, n, dec, SLOTS[1], 300)
                     if res.get("open", "").startswith("err"):
@@ -808,8 +966,29 @@ def _run(ctx, binp, tmp):
             ses.drop(wid)
             ctx.log("%s %s: %d syscalls, %d commits, %d crash points, %d images so far" % (
                 wid, kind, sum(1 for e in tr.ev if e["k"] != "M"), len(tr.commits), len(points), n_img))
+        # malformed stream for the recovery path: crafted / damaged / random slot contents
+        raw = gen_raw_cases(r.fork(), 1500 if thorough else 240)
+        n_raw_ok = 0
+        for (size, a, b), line in zip(raw, ses.raw(raw)):
+            res = parse_result(line)
+            if res.get("open", "").startswith("err"):
+                impl = None
+            elif res.get("open") == "ok":
+                impl = (res.get("ho"), res.get("fc"), None)
+                n_raw_ok += 1
+            else:
+                impl = "?"
+            pa = (a + bytes(300))[:300]
+            pb = (b + bytes(300))[:300]
+            # the harness clips the slot bytes at the file size; mirror that
+            pa = bytes(x if 4096 + i < size else 0 for i, x in enumerate(pa))
+            pb = bytes(x if 8192 + i < size else 0 for i, x in enumerate(pb))
+            raw_cases.append((size, pa, pb, impl, ("raw", a.hex(), b.hex()), int(res.get("size", -1))))
+        dist["raw_open_cases"] = len(raw)
+        dist["raw_open_cases_valid"] = n_raw_ok
     finally:
         ses.close()
+    open_cases += raw_cases
 
     # ---- correspondence 1: write protocol, model trace == recorded trace
     good = [t for t in traces if t.status == "ok" and not t.problems]
@@ -898,7 +1077,7 @@ def _run(ctx, binp, tmp):
     ctx.assumptions += [
         "OS contract (Section hypothesis of the model): a completed fsync/fdatasync makes every earlier pwrite/fallocate of the file durable; "
         "un-synced writes may be lost or torn at byte granularity, in issue order; nothing else changes the file",
-        "checksum idealisation (premise tear_free of crash_recovery): a torn root-record write validates only as the new root or as what the slot validated to before",
+        "checksum idealisation (premise tear_free of crash_recovery): a torn root-record write validates only as the new root, as what the slot validated to before, or not at all",
         "durability of the directory entry of a newly created graph file is outside the model (create does not fsync the directory)",
     ]
     for (why, wi, kind, ops, n, spec, raw) in violations[:3]:
